@@ -652,6 +652,29 @@ fn deck_trace<H: rustzx_core::host::Host>(e: &mut rustzx_core::Emulator<H>, hist
     out
 }
 
+/// A host whose tape asset type is the asset implementation itself (no `DynamicAsset` box in between, which
+/// forwards only the required methods of the asset traits).
+struct AHost<A>(std::marker::PhantomData<A>);
+struct ACtx;
+impl<A: rustzx_core::host::LoadableAsset + rustzx_core::host::SeekableAsset> rustzx_core::host::HostContext<AHost<A>> for ACtx {
+    fn frame_buffer_context(&self) {}
+}
+impl<A: rustzx_core::host::LoadableAsset + rustzx_core::host::SeekableAsset> rustzx_core::host::Host for AHost<A> {
+    type Context = ACtx;
+    type TapeAsset = A;
+    type FrameBuffer = crate::host::Fb;
+    type EmulationStopwatch = crate::host::Sw;
+    type IoExtender = crate::host::Ext;
+    type DebugInterface = crate::c16::env::DDbg;
+}
+
+fn direct_trace<A: rustzx_core::host::LoadableAsset + rustzx_core::host::SeekableAsset>(m128: bool, asset: A, hist: &[(u8, u64)]) -> Result<Vec<(u64, u8)>, String> {
+    let mut e: rustzx_core::Emulator<AHost<A>> =
+        rustzx_core::Emulator::new(crate::host::settings(&crate::host::Cfg::new(m128)), ACtx).map_err(|_| "Emulator::new failed".to_string())?;
+    e.load_tape(rustzx_core::host::Tape::Tap(asset)).map_err(|e| format!("load_tape: {:?}", e))?;
+    Ok(deck_trace(&mut e, hist))
+}
+
 fn asset_kinds(o: &Opts, rep: &mut Report, only: Option<(u64, usize)>) {
     use crate::c16::env::{DCtx, Deliv, Emu as DEmu};
     use crate::host::*;
@@ -709,14 +732,25 @@ fn asset_kinds(o: &Opts, rep: &mut Report, only: Option<(u64, usize)>) {
             let _ = e.load_tape(rustzx_core::host::Tape::Tap(VAsset::new(tap.clone())));
             deck_trace(&mut e, &hist)
         };
-        for d in [Deliv::File, Deliv::Gzip, Deliv::Whole] {
+        // each implementation boxed in a DynamicAsset (as the application holds them) and as the host's asset type itself
+        for (d, direct) in [(Deliv::File, false), (Deliv::Gzip, false), (Deliv::Whole, false), (Deliv::File, true), (Deliv::Gzip, true), (Deliv::Whole, true)] {
             let got: Result<Vec<(u64, u8)>, String> = (|| {
+                if direct {
+                    return match d {
+                        Deliv::File => direct_trace(m128, rustzx_utils::io::FileAsset::from(crate::c16::env::temp_file(&tap)?), &hist),
+                        Deliv::Gzip => {
+                            let gz = crate::c16::env::gzip_stored(&tap, 1000);
+                            direct_trace(m128, rustzx_utils::io::GzipAsset::new(&gz[..]).map_err(|e| format!("gzip: {}", e))?, &hist)
+                        }
+                        _ => direct_trace(m128, rustzx_core::host::BufferCursor::new(tap.clone()), &hist),
+                    };
+                }
                 let mut e: DEmu = rustzx_core::Emulator::new(settings(&Cfg::new(m128)), DCtx).map_err(|_| "Emulator::new failed".to_string())?;
                 e.load_tape(rustzx_core::host::Tape::Tap(d.make(&tap)?)).map_err(|e| format!("load_tape: {:?}", e))?;
                 Ok(deck_trace(&mut e, &hist))
             })();
             rep.eval();
-            rep.class(format!("asset kind {} m128={} passes={}", d.class(), m128, passes));
+            rep.class(format!("asset kind {} direct={} m128={} passes={}", d.class(), direct, m128, passes));
             let bad = match &got {
                 Err(e) => Some(e.clone()),
                 Ok(t) if *t != reference => {
